@@ -1,3 +1,406 @@
-/-! C12 property theorems — stub (not built yet). -/
+import TTProofs.Lemmas.C12_Builders
+import TTProofs.Lemmas.C12_Sort
+/-!
+# C12 — gradients are the derivatives of the reported densities (property theorems)
+
+What is a theorem here: the forward-mode (dual number) evaluation of the MODEL of each density is
+the true partial derivative of the model's value (`dual_sound`, every expression, unbounded size),
+instantiated for the coalescent densities, the GMRF, the discretised Weibull rates, the
+ratio→height transform with its log-Jacobian, the JC69 transition probabilities, and the pruning
+recursion (multi-affine in the edge matrices).  What ties it to torchtree: the harness compares
+the implementation's value and autograd gradient with the model's value and tangent evaluated at
+`Dual Float` on the same inputs (`drv_c12`), and evaluates the property's own oracle (finite
+differences of the implementation's value) on the real code.
+-/
 namespace TTProps.C12
+open TT TT.C12 TT.C12.Expr
+
+/-! ## the generic theorem -/
+
+/-- **Forward-mode evaluation is differentiation**, for every expression over
+`+ − × ÷ neg exp log sqrt pow`, literals and variables (any size), at every point where the
+expression is defined, in every coordinate. -/
+theorem dual_sound_all (e : Expr) (x : Nat → ℝ) (i : Nat) (h : Defined x e) :
+    HasDerivAt (fun t => eval (Function.update x i t) e) (eval (seed x i) e).d (x i) :=
+  dual_sound e x i h
+
+/-- the value part of the dual evaluation is the value -/
+theorem dual_value_all (e : Expr) (x : Nat → ℝ) (i : Nat) : (eval (seed x i) e).v = eval x e :=
+  dual_value e x i
+
+/-- a non-trivial instance: `log(x₀ · exp(x₁)) / x₀` at `(2, 3)` in the coordinate `0` -/
+example : HasDerivAt
+    (fun t : ℝ => eval (Function.update (envOf ([2, 3] : List ℝ)) 0 t) (div (log (mul (var 0) (exp (var 1)))) (var 0)))
+    (partialD (div (log (mul (var 0) (exp (var 1)))) (var 0)) (envOf ([2, 3] : List ℝ)) 0) 2 := by
+  have h : Defined (envOf ([2, 3] : List ℝ)) (div (log (mul (var 0) (exp (var 1)))) (var 0)) := by
+    refine ⟨⟨⟨trivial, trivial⟩, ?_⟩, trivial, ?_⟩ <;> simp [eval, envOf, Real.exp_ne_zero]
+  have := dual_sound_all _ (envOf ([2, 3] : List ℝ)) 0 h
+  simpa [envOf, partialD] using this
+
+/-- derivative of a finite sum of expressions = sum of the forward-mode tangents (sums of any length) -/
+theorem partialD_sum (x : Nat → ℝ) (i : Nat) (l : List Expr) :
+    partialD (sumL l) x i = (l.map fun e => partialD e x i).sum :=
+  partialD_sumL x i l
+
+/-! ## constant-size coalescent (`ConstantCoalescent.log_prob`, model `TT.C08.constantLogProb`) -/
+
+/-- value of the builder: `Σ -C(k,2)·Δt/θ − m·log θ` over the sorted events -/
+theorem eval_constantE (ρ : Nat → ℝ) (θ : Expr) (ts : List Expr) (marks : List Int) (m : Nat) :
+    eval ρ (constantE θ ts marks m) =
+      (List.zipWith (fun k d => -(C08.choose2 k : ℝ) * d / eval ρ θ) (lineagesM marks)
+        (C08.diffs (ts.map (eval ρ)))).sum - (m : ℝ) * Real.log (eval ρ θ) := by
+  simp only [constantE, eval, eval_sumL_real, List.map_zipWith, eval_choose2E, trans_log_real]
+  rw [← map_eval_diffsE, List.zipWith_map_right]
+
+theorem defined_constantE (ρ : Nat → ℝ) (θ : Expr) (ts : List Expr) (marks : List Int) (m : Nat)
+    (hθ : Defined ρ θ) (h0 : eval ρ θ ≠ 0) (hts : ∀ e ∈ ts, Defined ρ e) :
+    Defined ρ (constantE θ ts marks m) := by
+  refine ⟨(defined_sumL _ _).2 (mem_zipWith fun k _ d hd => ?_), trivial, hθ, h0⟩
+  exact ⟨⟨defined_choose2E ρ k, defined_diffsE ρ ts hts d hd⟩, hθ, h0⟩
+
+/-- the C08 model of the constant coalescent IS the builder evaluated on its sorted events -/
+theorem constantLogProb_eq_eval (θ : ℝ) (heights : List ℝ) :
+    C08.constantLogProb θ heights =
+      eval (envOf (θ :: C08.times (C08.sortEvents (C08.mkEvents heights []))))
+        (constantE (var 0) (vars 1 (C08.sortEvents (C08.mkEvents heights [])).length)
+          (C08.marks (C08.sortEvents (C08.mkEvents heights []))) (C08.taxaCount heights - 1)) := by
+  rw [eval_constantE]
+  have hlen : (C08.sortEvents (C08.mkEvents heights [])).length
+      = (C08.times (C08.sortEvents (C08.mkEvents heights []))).length := by simp [C08.times]
+  rw [hlen]
+  have := map_eval_vars_envOf [θ] (C08.times (C08.sortEvents (C08.mkEvents heights [])))
+  simp only [List.length_singleton, List.singleton_append] at this
+  rw [this]
+  simp [C08.constantLogProb, C08.constantIntegral, C08.lineages, lineagesM, eval, envOf]
+
+/-- **Constant coalescent, derivative in θ** (no condition on ties: the sort does not involve θ):
+the forward-mode tangent of the builder is the derivative of the C08 model's log-density. -/
+theorem hasDerivAt_constantLogProb_theta (heights : List ℝ) (θ : ℝ) (hθ : θ ≠ 0) :
+    HasDerivAt (fun t => C08.constantLogProb t heights)
+      (partialD (constantE (var 0) (vars 1 (C08.sortEvents (C08.mkEvents heights [])).length)
+          (C08.marks (C08.sortEvents (C08.mkEvents heights []))) (C08.taxaCount heights - 1))
+        (envOf (θ :: C08.times (C08.sortEvents (C08.mkEvents heights [])))) 0) θ := by
+  have h := hasDerivAt_of_eval'
+    (constantE (var 0) (vars 1 (C08.sortEvents (C08.mkEvents heights [])).length)
+          (C08.marks (C08.sortEvents (C08.mkEvents heights []))) (C08.taxaCount heights - 1))
+    (envOf (θ :: C08.times (C08.sortEvents (C08.mkEvents heights [])))) 0
+    (fun t => C08.constantLogProb t heights)
+    (defined_constantE _ _ _ _ _ trivial (by simpa [eval, envOf] using hθ) (defined_vars _ _ _))
+    (fun t => by
+      rw [update_envOf _ 0 (by simp)]
+      simpa using constantLogProb_eq_eval t heights)
+  simpa [envOf] using h
+
+
+/-- **Constant coalescent, derivative in an internal height away from ties.**  If `heights[i]` is
+tied with no other entry of the height vector, and `j` is the position of `heights[i]` in the sorted
+event list, the forward-mode tangent of the builder in the variable of that sorted time is the
+derivative of the C08 model's log-density with respect to `heights[i]`. -/
+theorem hasDerivAt_constantLogProb_height (θ : ℝ) (heights : List ℝ) (i : Nat) (hi : i < heights.length)
+    (hθ : θ ≠ 0)
+    (hnotie : ∀ k (hk : k < heights.length), k ≠ i → heights[k] ≠ heights[i])
+    (j : Nat) (hj : j < (C08.times (C08.sortEvents (C08.mkEvents heights []))).length)
+    (hjt : (C08.times (C08.sortEvents (C08.mkEvents heights [])))[j] = heights[i]) :
+    HasDerivAt (fun t => C08.constantLogProb θ (heights.set i t))
+      (partialD (constantE (var 0) (vars 1 (C08.sortEvents (C08.mkEvents heights [])).length)
+          (C08.marks (C08.sortEvents (C08.mkEvents heights []))) (C08.taxaCount heights - 1))
+        (envOf (θ :: C08.times (C08.sortEvents (C08.mkEvents heights [])))) (j + 1)) heights[i] := by
+  have hlen : ∀ l : List (C08.Ev ℝ), l.length = (C08.times l).length := fun l => by simp [C08.times]
+  have hj' : j + 1 < (θ :: C08.times (C08.sortEvents (C08.mkEvents heights []))).length := by simpa using hj
+  have h := hasDerivAt_of_eval
+    (constantE (var 0) (vars 1 (C08.sortEvents (C08.mkEvents heights [])).length)
+          (C08.marks (C08.sortEvents (C08.mkEvents heights []))) (C08.taxaCount heights - 1))
+    (envOf (θ :: C08.times (C08.sortEvents (C08.mkEvents heights [])))) (j + 1)
+    (fun t => C08.constantLogProb θ (heights.set i t))
+    (defined_constantE _ _ _ _ _ trivial (by simpa [eval, envOf] using hθ) (defined_vars _ _ _))
+    (by
+      rw [envOf_getElem _ _ hj']
+      simp only [List.getElem_cons_succ, hjt]
+      filter_upwards [eventually_sorted_after_set heights [] i hi hnotie (by simp) j hj hjt] with t ht
+      have hl : (C08.sortEvents (C08.mkEvents (heights.set i t) [])).length
+          = (C08.sortEvents (C08.mkEvents heights [])).length := by
+        rw [hlen, hlen, ht.2, List.length_set]
+      rw [update_envOf _ _ hj', constantLogProb_eq_eval, ht.1, ht.2, hl]
+      simp [C08.taxaCount])
+  rw [envOf_getElem _ _ hj'] at h
+  simpa [hjt] using h
+
+/-! ## skyride (`PiecewiseConstantCoalescent.log_prob`, model `TT.C08.skyrideLogProb`) -/
+
+theorem eval_skyrideE (ρ : Nat → ℝ) (θs ts : List Expr) (marks : List Int) :
+    eval ρ (skyrideE θs ts marks) =
+      -(C08.zipWith3 (fun k d i => (C08.choose2 k : ℝ) * d / (θs.map (eval ρ)).getD i 0) (lineagesM marks)
+          (C08.diffs (ts.map (eval ρ))) (skyrideIdxM marks)).sum
+        - ((θs.map (eval ρ)).map Real.log).sum := by
+  simp only [skyrideE, eval, eval_sumL_real, map_zipWith3, eval_choose2E, eval_getD, List.map_map]
+  rw [← map_eval_diffsE, zipWith3_map_mid]
+  rfl
+
+theorem defined_skyrideE (ρ : Nat → ℝ) (θs ts : List Expr) (marks : List Int)
+    (hθ : ∀ e ∈ θs, Defined ρ e ∧ eval ρ e ≠ 0) (hts : ∀ e ∈ ts, Defined ρ e)
+    (hidx : ∀ i ∈ skyrideIdxM marks, i < θs.length) :
+    Defined ρ (skyrideE θs ts marks) := by
+  refine ⟨(defined_sumL _ _).2 (mem_zipWith3 fun k _ d hd i hi => ?_), (defined_sumL _ _).2 ?_⟩
+  · have hmem : θs.getD i (nat 0) ∈ θs := by
+      rw [List.getD_eq_getElem?_getD, List.getElem?_eq_getElem (hidx i hi)]; simp
+    exact ⟨⟨defined_choose2E ρ k, defined_diffsE ρ ts hts d hd⟩, (hθ _ hmem).1, (hθ _ hmem).2⟩
+  · intro e he
+    obtain ⟨a, ha, rfl⟩ := List.mem_map.mp he
+    exact hθ a ha
+
+/-- the C08 skyride model is the builder evaluated on its sorted events; variables: `θ` first, then
+the sorted event times -/
+theorem skyrideLogProb_eq_eval (θ heights : List ℝ) :
+    C08.skyrideLogProb θ heights =
+      eval (envOf (θ ++ C08.times (C08.sortEvents (C08.mkEvents heights []))))
+        (skyrideE (vars 0 θ.length) (vars θ.length (C08.sortEvents (C08.mkEvents heights [])).length)
+          (C08.marks (C08.sortEvents (C08.mkEvents heights [])))) := by
+  rw [eval_skyrideE]
+  have hlen : (C08.sortEvents (C08.mkEvents heights [])).length
+      = (C08.times (C08.sortEvents (C08.mkEvents heights []))).length := by simp [C08.times]
+  rw [hlen, map_eval_vars_envOf, map_eval_vars_envOf_prefix]
+  simp only [C08.skyrideLogProb, C08.skyrideIntegral, C08.lineages, lineagesM, C08.skyrideIdx, skyrideIdxM]
+  rfl
+
+/-- **Skyride, derivative in each θ_k** (no condition on ties). -/
+theorem hasDerivAt_skyrideLogProb_theta (θ heights : List ℝ) (k : Nat) (hk : k < θ.length)
+    (hθ : ∀ x ∈ θ, x ≠ 0)
+    (hidx : ∀ i ∈ skyrideIdxM (C08.marks (C08.sortEvents (C08.mkEvents heights []))), i < θ.length) :
+    HasDerivAt (fun t => C08.skyrideLogProb (θ.set k t) heights)
+      (partialD (skyrideE (vars 0 θ.length) (vars θ.length (C08.sortEvents (C08.mkEvents heights [])).length)
+          (C08.marks (C08.sortEvents (C08.mkEvents heights []))))
+        (envOf (θ ++ C08.times (C08.sortEvents (C08.mkEvents heights [])))) k) θ[k] := by
+  have hk' : k < (θ ++ C08.times (C08.sortEvents (C08.mkEvents heights []))).length := by
+    simp; omega
+  have hdef : Defined (envOf (θ ++ C08.times (C08.sortEvents (C08.mkEvents heights []))))
+      (skyrideE (vars 0 θ.length) (vars θ.length (C08.sortEvents (C08.mkEvents heights [])).length)
+          (C08.marks (C08.sortEvents (C08.mkEvents heights [])))) := by
+    refine defined_skyrideE _ _ _ _ ?_ (defined_vars _ _ _) (by simpa [vars_length] using hidx)
+    intro e he
+    refine ⟨defined_vars _ _ _ e he, ?_⟩
+    have : eval (envOf (θ ++ C08.times (C08.sortEvents (C08.mkEvents heights [])))) e ∈
+        (vars 0 θ.length).map (eval (envOf (θ ++ C08.times (C08.sortEvents (C08.mkEvents heights []))))) :=
+      List.mem_map_of_mem he
+    rw [map_eval_vars_envOf_prefix] at this
+    exact hθ _ this
+  have h := hasDerivAt_of_eval' _ _ k (fun t => C08.skyrideLogProb (θ.set k t) heights) hdef
+    (fun t => by
+      rw [update_envOf _ _ hk', List.set_append_left _ _ hk]
+      simpa using skyrideLogProb_eq_eval (θ.set k t) heights)
+  rw [envOf_getElem _ _ hk'] at h
+  simpa [List.getElem_append_left hk] using h
+
+/-- **Skyride, derivative in an internal height away from ties.** -/
+theorem hasDerivAt_skyrideLogProb_height (θ heights : List ℝ) (i : Nat) (hi : i < heights.length)
+    (hθ : ∀ x ∈ θ, x ≠ 0)
+    (hidx : ∀ i ∈ skyrideIdxM (C08.marks (C08.sortEvents (C08.mkEvents heights []))), i < θ.length)
+    (hnotie : ∀ k (hk : k < heights.length), k ≠ i → heights[k] ≠ heights[i])
+    (j : Nat) (hj : j < (C08.times (C08.sortEvents (C08.mkEvents heights []))).length)
+    (hjt : (C08.times (C08.sortEvents (C08.mkEvents heights [])))[j] = heights[i]) :
+    HasDerivAt (fun t => C08.skyrideLogProb θ (heights.set i t))
+      (partialD (skyrideE (vars 0 θ.length) (vars θ.length (C08.sortEvents (C08.mkEvents heights [])).length)
+          (C08.marks (C08.sortEvents (C08.mkEvents heights []))))
+        (envOf (θ ++ C08.times (C08.sortEvents (C08.mkEvents heights [])))) (θ.length + j)) heights[i] := by
+  have hlen : ∀ l : List (C08.Ev ℝ), l.length = (C08.times l).length := fun l => by simp [C08.times]
+  have hj' : θ.length + j < (θ ++ C08.times (C08.sortEvents (C08.mkEvents heights []))).length := by
+    simp; omega
+  have hdef : Defined (envOf (θ ++ C08.times (C08.sortEvents (C08.mkEvents heights []))))
+      (skyrideE (vars 0 θ.length) (vars θ.length (C08.sortEvents (C08.mkEvents heights [])).length)
+          (C08.marks (C08.sortEvents (C08.mkEvents heights [])))) := by
+    refine defined_skyrideE _ _ _ _ ?_ (defined_vars _ _ _) (by simpa [vars_length] using hidx)
+    intro e he
+    refine ⟨defined_vars _ _ _ e he, ?_⟩
+    have : eval (envOf (θ ++ C08.times (C08.sortEvents (C08.mkEvents heights [])))) e ∈
+        (vars 0 θ.length).map (eval (envOf (θ ++ C08.times (C08.sortEvents (C08.mkEvents heights []))))) :=
+      List.mem_map_of_mem he
+    rw [map_eval_vars_envOf_prefix] at this
+    exact hθ _ this
+  have hval : envOf (θ ++ C08.times (C08.sortEvents (C08.mkEvents heights []))) (θ.length + j) = heights[i] := by
+    rw [envOf_getElem _ _ hj', List.getElem_append_right (by omega)]
+    simpa using hjt
+  have h := hasDerivAt_of_eval _ _ (θ.length + j) (fun t => C08.skyrideLogProb θ (heights.set i t)) hdef
+    (by
+      rw [hval]
+      filter_upwards [eventually_sorted_after_set heights [] i hi hnotie (by simp) j hj hjt] with t ht
+      have hl : (C08.sortEvents (C08.mkEvents (heights.set i t) [])).length
+          = (C08.sortEvents (C08.mkEvents heights [])).length := by
+        rw [hlen, hlen, ht.2, List.length_set]
+      rw [update_envOf _ _ hj', skyrideLogProb_eq_eval, ht.1, ht.2, hl]
+      rw [List.set_append_right _ _ (by omega)]
+      simp)
+  rwa [hval] at h
+
+
+/-! ## skygrid (`PiecewiseConstantCoalescentGrid.log_prob`, model `TT.C08.skygridLogProb`) -/
+
+theorem sum_zipWith3_neg {α β γ : Type} (g : α → β → γ → ℝ) :
+    ∀ (l₁ : List α) (l₂ : List β) (l₃ : List γ),
+      (C08.zipWith3 (fun a b c => -(g a b c)) l₁ l₂ l₃).sum = -(C08.zipWith3 g l₁ l₂ l₃).sum
+  | [], _, _ => by simp [C08.zipWith3]
+  | _ :: _, [], _ => by simp [C08.zipWith3]
+  | _ :: _, _ :: _, [] => by simp [C08.zipWith3]
+  | a :: l₁, b :: l₂, c :: l₃ => by
+    simp only [C08.zipWith3, List.sum_cons, sum_zipWith3_neg g l₁ l₂ l₃]; ring
+
+theorem eval_skygridE (ρ : Nat → ℝ) (θs ts : List Expr) (marks : List Int) (hL : marks.length = ts.length) :
+    eval ρ (skygridE θs ts marks) =
+      -(C08.zipWith3 (fun k d i => (C08.choose2 k : ℝ) * d / (θs.map (eval ρ)).getD i 0) (lineagesM marks)
+          (C08.diffs (ts.map (eval ρ))) (skygridIdxM marks).dropLast).sum
+        - ((List.zipWith (fun m i => if m = -1 then Real.log ((θs.map (eval ρ)).getD i 0) else (0 : ℝ)) marks
+            (skygridIdxM marks)).tail).sum := by
+  simp only [skygridE, eval_sumL_real, List.map_zipWith, eval]
+  have h1 : ∀ (l₁ l₂ : List Expr), List.zipWith (fun a b => eval ρ a - eval ρ b) l₁ l₂
+      = List.zipWith (fun a b => a - b) (l₁.map (eval ρ)) (l₂.map (eval ρ)) := by
+    intro l₁ l₂; rw [List.zipWith_map]
+  rw [h1, sum_zipWith_sub]
+  · congr 1
+    · rw [map_zipWith3]
+      simp only [eval, eval_choose2E, eval_getD]
+      rw [← sum_zipWith3_neg, ← map_eval_diffsE, zipWith3_map_mid]
+      have hf : (fun (a : Int) (b : Expr) (c : Nat) => -C08.choose2 a * eval ρ b / (List.map (eval ρ) θs).getD c 0)
+          = fun a b c => -((C08.choose2 a : ℝ) * eval ρ b / (List.map (eval ρ) θs).getD c 0) := by
+        funext k d i; ring
+      rw [hf]
+    · rw [List.map_tail, List.map_zipWith]
+      have hf : (fun (x : Int) (y : Nat) => eval ρ (if x = -1 then (θs.getD y (nat 0)).log else nat 0))
+          = fun m i => if m = -1 then Real.log ((List.map (eval ρ) θs).getD i 0) else (0 : ℝ) := by
+        funext m i
+        split
+        · simp only [eval, trans_log_real, eval_getD]
+        · simp [eval]
+      rw [hf]
+  · simp only [List.length_map, List.length_tail, List.length_zipWith, length_zipWith3, lineagesM, skygridIdxM,
+      List.length_dropLast, length_cumsum, C08.isMark]
+    have : (diffsE ts).length = ts.length - 1 := by
+      have := congrArg List.length (map_eval_diffsE ρ ts)
+      simpa [length_diffs] using this
+    rw [this]
+    omega
+
+theorem defined_skygridE (ρ : Nat → ℝ) (θs ts : List Expr) (marks : List Int)
+    (hθ : ∀ e ∈ θs, Defined ρ e ∧ eval ρ e ≠ 0) (hts : ∀ e ∈ ts, Defined ρ e)
+    (hidx : ∀ i ∈ skygridIdxM marks, i < θs.length) :
+    Defined ρ (skygridE θs ts marks) := by
+  have hget : ∀ i, i < θs.length → θs.getD i (nat 0) ∈ θs := fun i hi => by
+    rw [List.getD_eq_getElem?_getD, List.getElem?_eq_getElem hi]; simp
+  refine (defined_sumL _ _).2 (mem_zipWith fun a ha b hb => ⟨?_, ?_⟩)
+  · revert a
+    refine mem_zipWith3 fun k _ d hd i hi => ?_
+    have hi' := hidx i (List.mem_of_mem_dropLast hi)
+    exact ⟨⟨defined_choose2E ρ k, defined_diffsE ρ ts hts d hd⟩, (hθ _ (hget i hi')).1, (hθ _ (hget i hi')).2⟩
+  · have hall : ∀ b ∈ List.zipWith (fun (m : Int) (i : Nat) => if m = -1 then (θs.getD i (nat 0)).log else nat 0)
+        marks (skygridIdxM marks), Defined ρ b := by
+      refine mem_zipWith fun m _ i hi => ?_
+      split
+      · exact ⟨(hθ _ (hget i (hidx i hi))).1, (hθ _ (hget i (hidx i hi))).2⟩
+      · trivial
+    exact hall b (List.mem_of_mem_tail hb)
+
+theorem skygridLogProb_eq_eval (θ grid heights : List ℝ) :
+    C08.skygridLogProb θ grid heights =
+      eval (envOf (θ ++ C08.times (C08.sortEvents (C08.mkEvents heights grid))))
+        (skygridE (vars 0 θ.length) (vars θ.length (C08.sortEvents (C08.mkEvents heights grid)).length)
+          (C08.marks (C08.sortEvents (C08.mkEvents heights grid)))) := by
+  rw [eval_skygridE _ _ _ _ (by simp [C08.marks, vars_length])]
+  have hlen : (C08.sortEvents (C08.mkEvents heights grid)).length
+      = (C08.times (C08.sortEvents (C08.mkEvents heights grid))).length := by simp [C08.times]
+  rw [hlen, map_eval_vars_envOf, map_eval_vars_envOf_prefix]
+  simp only [C08.skygridLogProb, C08.skygridIntegral, C08.skygridLogs, C08.lineages, lineagesM, C08.skygridIdx,
+    skygridIdxM]
+  rfl
+
+
+theorem defined_skygrid_vars (θ grid heights : List ℝ) (hθ : ∀ x ∈ θ, x ≠ 0)
+    (hidx : ∀ i ∈ skygridIdxM (C08.marks (C08.sortEvents (C08.mkEvents heights grid))), i < θ.length) :
+    Defined (envOf (θ ++ C08.times (C08.sortEvents (C08.mkEvents heights grid))))
+      (skygridE (vars 0 θ.length) (vars θ.length (C08.sortEvents (C08.mkEvents heights grid)).length)
+          (C08.marks (C08.sortEvents (C08.mkEvents heights grid)))) := by
+  refine defined_skygridE _ _ _ _ ?_ (defined_vars _ _ _) (by simpa [vars_length] using hidx)
+  intro e he
+  refine ⟨defined_vars _ _ _ e he, ?_⟩
+  have : eval (envOf (θ ++ C08.times (C08.sortEvents (C08.mkEvents heights grid)))) e ∈
+      (vars 0 θ.length).map (eval (envOf (θ ++ C08.times (C08.sortEvents (C08.mkEvents heights grid))))) :=
+    List.mem_map_of_mem he
+  rw [map_eval_vars_envOf_prefix] at this
+  exact hθ _ this
+
+/-- **Skygrid, derivative in each θ_k** (no condition on ties). -/
+theorem hasDerivAt_skygridLogProb_theta (θ grid heights : List ℝ) (k : Nat) (hk : k < θ.length)
+    (hθ : ∀ x ∈ θ, x ≠ 0)
+    (hidx : ∀ i ∈ skygridIdxM (C08.marks (C08.sortEvents (C08.mkEvents heights grid))), i < θ.length) :
+    HasDerivAt (fun t => C08.skygridLogProb (θ.set k t) grid heights)
+      (partialD (skygridE (vars 0 θ.length) (vars θ.length (C08.sortEvents (C08.mkEvents heights grid)).length)
+          (C08.marks (C08.sortEvents (C08.mkEvents heights grid))))
+        (envOf (θ ++ C08.times (C08.sortEvents (C08.mkEvents heights grid)))) k) θ[k] := by
+  have hk' : k < (θ ++ C08.times (C08.sortEvents (C08.mkEvents heights grid))).length := by
+    simp; omega
+  have h := hasDerivAt_of_eval' _ _ k (fun t => C08.skygridLogProb (θ.set k t) grid heights)
+    (defined_skygrid_vars θ grid heights hθ hidx)
+    (fun t => by
+      rw [update_envOf _ _ hk', List.set_append_left _ _ hk]
+      simpa using skygridLogProb_eq_eval (θ.set k t) grid heights)
+  rw [envOf_getElem _ _ hk'] at h
+  simpa [List.getElem_append_left hk] using h
+
+/-- **Skygrid, derivative in an internal height away from ties** (ties with other heights AND with
+grid points excluded). -/
+theorem hasDerivAt_skygridLogProb_height (θ grid heights : List ℝ) (i : Nat) (hi : i < heights.length)
+    (hθ : ∀ x ∈ θ, x ≠ 0)
+    (hidx : ∀ i ∈ skygridIdxM (C08.marks (C08.sortEvents (C08.mkEvents heights grid))), i < θ.length)
+    (hnotie : ∀ k (hk : k < heights.length), k ≠ i → heights[k] ≠ heights[i])
+    (hgrid : ∀ g ∈ grid, g ≠ heights[i])
+    (j : Nat) (hj : j < (C08.times (C08.sortEvents (C08.mkEvents heights grid))).length)
+    (hjt : (C08.times (C08.sortEvents (C08.mkEvents heights grid)))[j] = heights[i]) :
+    HasDerivAt (fun t => C08.skygridLogProb θ grid (heights.set i t))
+      (partialD (skygridE (vars 0 θ.length) (vars θ.length (C08.sortEvents (C08.mkEvents heights grid)).length)
+          (C08.marks (C08.sortEvents (C08.mkEvents heights grid))))
+        (envOf (θ ++ C08.times (C08.sortEvents (C08.mkEvents heights grid)))) (θ.length + j)) heights[i] := by
+  have hlen : ∀ l : List (C08.Ev ℝ), l.length = (C08.times l).length := fun l => by simp [C08.times]
+  have hj' : θ.length + j < (θ ++ C08.times (C08.sortEvents (C08.mkEvents heights grid))).length := by
+    simp; omega
+  have hval : envOf (θ ++ C08.times (C08.sortEvents (C08.mkEvents heights grid))) (θ.length + j) = heights[i] := by
+    rw [envOf_getElem _ _ hj', List.getElem_append_right (by omega)]
+    simpa using hjt
+  have h := hasDerivAt_of_eval _ _ (θ.length + j) (fun t => C08.skygridLogProb θ grid (heights.set i t))
+    (defined_skygrid_vars θ grid heights hθ hidx)
+    (by
+      rw [hval]
+      filter_upwards [eventually_sorted_after_set heights grid i hi hnotie hgrid j hj hjt] with t ht
+      have hl : (C08.sortEvents (C08.mkEvents (heights.set i t) grid)).length
+          = (C08.sortEvents (C08.mkEvents heights grid)).length := by
+        rw [hlen, hlen, ht.2, List.length_set]
+      rw [update_envOf _ _ hj', skygridLogProb_eq_eval, ht.1, ht.2, hl]
+      rw [List.set_append_right _ _ (by omega)]
+      simp)
+  rwa [hval] at h
+
+/-- the hypotheses are met by a concrete genealogy: 3 taxa sampled at 0, 0, 1, coalescences at 2 and 4,
+one grid point at 3, `θ = (2, 3)`; height index 3 (the coalescence at 2) sits at sorted position 3 -/
+example : HasDerivAt (fun t => C08.skygridLogProb [2, 3] [3] (([0, 0, 1, 2, 4] : List ℝ).set 3 t))
+    (partialD (skygridE (vars 0 2) (vars 2 6) [1, 1, 1, -1, 0, -1]) (envOf ([2, 3, 0, 0, 1, 2, 3, 4] : List ℝ)) 5)
+    2 := by
+  have hs : C08.sortEvents (C08.mkEvents ([0, 0, 1, 2, 4] : List ℝ) [3])
+      = [⟨0, 1⟩, ⟨0, 1⟩, ⟨1, 1⟩, ⟨2, -1⟩, ⟨3, 0⟩, ⟨4, -1⟩] := by
+    have hm : C08.mkEvents ([0, 0, 1, 2, 4] : List ℝ) [3]
+        = [⟨0, 1⟩, ⟨0, 1⟩, ⟨1, 1⟩, ⟨2, -1⟩, ⟨4, -1⟩, ⟨3, 0⟩] := by
+      simp [C08.mkEvents, C08.taxaCount, C08.nodeMask, List.replicate]
+    rw [hm]
+    norm_num [C08.sortEvents, C08.insertEv]
+  have h := hasDerivAt_skygridLogProb_height [2, 3] [3] ([0, 0, 1, 2, 4] : List ℝ) 3 (by simp)
+    (by intro x hx; simp at hx; rcases hx with rfl | rfl <;> norm_num)
+    (by rw [hs]; decide)
+    (by
+      intro k hk hne
+      have : k < 5 := by simpa using hk
+      rcases k with _ | _ | _ | _ | _ | k
+      · norm_num
+      · norm_num
+      · norm_num
+      · exact absurd rfl hne
+      · norm_num
+      · omega)
+    (by intro g hg; simp at hg; subst hg; norm_num)
+    3 (by simp [hs, C08.times]) (by simp [hs, C08.times])
+  simpa [hs, C08.times, C08.marks] using h
+
 end TTProps.C12
